@@ -37,6 +37,9 @@ ASSUME /\ Distinct(VariantNo, 48) /\ Distinct(AttrNo, 48) /\ Distinct(TagNo, 24)
        /\ Distinct(LAMBDA d : UKeyNo(d), 48) /\ Distinct(LAMBDA d : TKeyNo(d), 48)
        /\ \A d \in 1..48 : IsVariant(VariantNo(d)) /\ IsAttr(AttrNo(d)) /\ IsUKey(UKeyNo(d)) /\ IsTKey(TKeyNo(d))
 
+FlipMasks == <<0, 32, 16, 64, 128, 1, 2, 4>>
+(* XOR of a byte with a one-bit mask: add the mask if the bit is clear, subtract it if set                                *)
+XorByte(b, m) == IF m = 0 THEN b ELSE IF (b \div m) % 2 = 0 THEN b + m ELSE b - m
 AnyBase == << B("en-US-u-foo-t-hi-latn"), B("sr_Cyrl_RS_valencia_x_a1"), B("de-1996-u-ca-gregory-t-h0-hybrid") >>
 Heads == << <<B("en")>>, <<B("SR"), B("cyrl"), B("rs")>>, <<B("und"), B("419")>> >>
 
@@ -70,6 +73,17 @@ Toks ==
                off == n \div 256
            IN Split(SubSeq(base, 1, off) \o <<n % 256>> \o SubSeq(base, off + 1, Len(base)))
 
+      (* ONE byte of the same locales REPLACED by the byte with one bit flipped (0x20: the case bit, which maps '-' to CR,   *)
+      (* '_' to DEL, the digits to control characters and '@[`{' onto each other; 0x10, 0x40, 0x80, 0x01): the byte at       *)
+      (* offset n \div 8 is XOR-ed with mask number n % 8 (mask 0 leaves the text alone).  A comparison, hash or cache key     *)
+      (* that folds case with a bit operation confuses exactly these texts with the well-formed one; the harness parses the   *)
+      (* unmodified text first ("after"), so that a remembered answer for it is there to be confused with.                    *)
+      [] kind = "flipbit" ->
+           LET base == AnyBase[head]
+               off == (n \div 8) + 1
+               m == FlipMasks[(n % 8) + 1]
+           IN Split([base EXCEPT ![off] = XorByte(@, m)])
+
 (* The harness runs these REJECTED calls straight before every round trip it judges (harness/src/replay.rs, poison()):   *)
 (* each pushes as much as it can -- variants, attributes, types, tfield values, private tags -- before it fails, so that  *)
 (* anything a failed call leaves behind in the library (a scratch buffer that is drained on success only) lands in the     *)
@@ -82,11 +96,12 @@ ASSUME /\ \A p \in PoisonLI : ~ParseLI(p).ok
        /\ \A p \in PoisonLoc : ParseLoc(p).zone = "reject"
        /\ \A p \in PoisonExt : ParseExt(p).zone = "reject"
 
-Kinds6 == {"variants", "attrs", "keywords", "tfields", "tags", "all", "odd", "types", "tvalues", "tlangvars", "anybyte"}
+Kinds6 == {"variants", "attrs", "keywords", "tfields", "tags", "all", "odd", "types", "tvalues", "tlangvars", "anybyte", "flipbit"}
 (* us: every third separator is an underscore (the two separators must be    *)
 (* interchangeable at any length, C09 / C13)                                  *)
 Init == kind \in Kinds6 /\ head \in 1..3
-        /\ n \in 0..(IF kind = "odd" THEN 3 * MaxN ELSE IF kind = "anybyte" THEN 256 * (Len(AnyBase[head]) + 1) - 1 ELSE MaxN)
+        /\ n \in 0..(IF kind = "odd" THEN 3 * MaxN ELSE IF kind = "anybyte" THEN 256 * (Len(AnyBase[head]) + 1) - 1
+                       ELSE IF kind = "flipbit" THEN 8 * Len(AnyBase[head]) - 1 ELSE MaxN)
         /\ us \in BOOLEAN /\ (us => kind \in {"variants", "all"} /\ n % 4 = 1)
         /\ (kind \in {"keywords", "tfields", "attrs", "tags", "all", "types", "tvalues"} => n >= 1)
 Spec == Init /\ [][FALSE]_<<kind, n, head, us>>
@@ -95,7 +110,7 @@ RLI  == ParseLITokens(Toks)
 RLoc == ParseLocTokens(Toks)
 
 (* the inputs are what they are meant to be                                  *)
-Shape == /\ kind \notin {"odd", "anybyte"} => RLoc.zone = "accept"
+Shape == /\ kind \notin {"odd", "anybyte", "flipbit"} => RLoc.zone = "accept"
          (* a byte that is neither alphanumeric nor a separator makes any text ill-formed, wherever it stands *)
          /\ (kind = "anybyte" /\ ~IsAlnum(n % 256) /\ n % 256 \notin {45, 95}) => RLoc.zone = "reject" /\ ~RLI.ok
          /\ kind = "variants" => RLI.ok /\ Len(RLI.val.variants) = n
@@ -110,7 +125,7 @@ RoundTrip == RLoc.zone = "accept" =>
                 LET s == SerLoc(RLoc.val)  r == ParseLoc(s) IN r.zone = "accept" /\ r.val = RLoc.val /\ Len(s) <= Len(Join(Toks))
 
 CaseRec ==
-    [k |-> "parse", toks |-> Toks, seps |-> [j \in 1..(Len(Toks) - 1) |-> IF us /\ j % 3 = 0 THEN 95 ELSE 45],
+    [k |-> "parse", after |-> IF kind = "flipbit" THEN AnyBase[head] ELSE <<>>, toks |-> Toks, seps |-> [j \in 1..(Len(Toks) - 1) |-> IF us /\ j % 3 = 0 THEN 95 ELSE 45],
      li |-> [ok |-> RLI.ok, err |-> RLI.err, val |-> RLI.val, ser |-> SerLI(RLI.val)],
      loc |-> [zone |-> RLoc.zone, why |-> RLoc.why, val |-> RLoc.val, ser |-> SerLoc(RLoc.val)]]
 EmitCase == PrintT("CASE " \o ToJson(CaseRec))
